@@ -212,7 +212,7 @@ pub fn property(tier: Tier) -> Property {
         exhaustive: false,
     })];
     Property {
-        id: "C17",
+        id: "C17", scale: tier.pick(2, 1),
         stages,
         assumptions: vec!["names whose digits denote a number >= 2^30 are outside the property's domain (the encoding overflows)".into()],
     }
